@@ -3,8 +3,8 @@ import AslModel.Spec.Options
 at character level where the C code works on characters (`DecodeLine` splits the `ASCMD` string / a key
 file line in place; `ProcessParam` indexes `Param[Start..]`, walks the `CMDRec` table by index).
 
-What is *not* modelled: `strmaxcpy` truncation to STRINGSIZE-1 = 1023 characters and the 255-character
-chunks of `ReadLn` (hypotheses of the theorems exclude longer inputs), `SLASHARGS` (not defined on this
+What is *not* modelled: `strmaxcpy` truncation to STRINGSIZE-1 = 1023 characters (hypotheses of the theorems exclude
+longer inputs; the 255-character chunks of `ReadLn` ARE modelled: `fgets`, `readLn`, `keyFileLines`), `SLASHARGS` (not defined on this
 platform), message texts.  A callback returning `CMDFile` does not occur in as.c and is not representable.
 Core only. -/
 namespace AslModel.CmdArg
@@ -141,7 +141,51 @@ def decodeLine (recs : List (CMDRec σ)) (oneLine : Tok) (st : St σ) : St σ :=
     -- `EnvStr` is allocated for the line since the repair `d9043c1`; it was `char *EnvStr[256]`, overrun from 256 parameters on
     envLoop recs toks st
 
-/-- ProcessFile; `fs name` = the lines ReadLn delivers -/
+/-! ### the key file reader: `ReadLn` (strutil.c) and the `while (!feof(KeyFile))` loop of ProcessFile
+
+A key file is its content (a character list, one `Char` per byte).  `fgets` is the C library's: at most 255 characters
+(`fgets(Zeile, 256, Datei)`), up to and including the first line feed; the stream's end-of-file indicator is set when the
+content runs out while `fgets` still wants characters - in particular by a last line WITHOUT a terminating line feed, which
+`fgets` nevertheless delivers.  ProcessFile tests the indicator only at the loop head, i.e. after the line just read has been
+decoded.  Not modelled: read errors (`ferror`, `errno`). -/
+
+/-- `fgets(buf, cap + 1, f)` on the rest of the file: (characters stored, rest of the file, end-of-file indicator) -/
+def fgets : Nat → Tok → Tok × Tok × Bool
+  | 0, s => ([], s, false)
+  | _ + 1, [] => ([], [], true)
+  | n + 1, c :: s =>
+    if c == '\n' then ([c], s, false)
+    else let r := fgets n s; (c :: r.1, r.2.1, r.2.2)
+
+/-- the buffer seen as a C string (`strlen`): up to the first NUL -/
+def cstr (b : Tok) : Tok := b.takeWhile (fun c => c.toNat != 0)
+
+/-- `if ((l > 0) && (Zeile[l - 1] == c)) Zeile[--l] = '\0';` -/
+def stripLast (c : Char) (l : Tok) : Tok := if l.getLast? == some c then l.dropLast else l
+
+/-- `fgets(Zeile, 256, …)` -/
+def readLnCap : Nat := 255
+
+/-- ReadLn: one `fgets`, then a trailing LF, a trailing CR and a trailing Ctrl-Z (DOS end-of-file mark) are removed, in this order -/
+def readLn (content : Tok) : Tok × Tok × Bool :=
+  let r := fgets readLnCap content
+  (stripLast (Char.ofNat 26) (stripLast '\r' (stripLast '\n' (cstr r.1))), r.2.1, r.2.2)
+
+/-- `while (!feof(KeyFile)) { ReadLn(KeyFile, OneLine); DecodeLine(…, OneLine, …); }`: the lines handed to DecodeLine.
+`fuel` bounds the iterations; `content.length + 1` always suffices (`readLoop_fuel` in Lemmas/KeyFile.lean). -/
+def readLoop : Nat → Tok → List Tok
+  | 0, _ => []
+  | fuel + 1, content =>
+    let r := readLn content
+    r.1 :: (if r.2.2 then [] else readLoop fuel r.2.1)
+
+/-- the lines ProcessFile decodes for a key file with this content -/
+def keyFileLines (content : Tok) : List Tok := readLoop (content.length + 1) content
+
+/-- a file system given by file contents, seen as the file system of lines that `processFile` consumes -/
+def rawFs (fc : Tok → Option Tok) : Tok → Option (List Tok) := fun n => (fc n).map keyFileLines
+
+/-- ProcessFile; `fs name` = the lines ReadLn delivers (`keyFileLines` of the file's content, see `rawFs`) -/
 def processFile (recs : List (CMDRec σ)) (fs : Tok → Option (List Tok)) (name : Tok) (st : St σ) : St σ :=
   match fs name with
   | none => { st with errs := st.errs ++ [.keyNotFound name] }
